@@ -62,9 +62,15 @@ func genCmp(r *h.Rng, g mgen) string {
 	return " " + op + " " + num
 }
 
+// ranges with a part below one millisecond (the grammar admits us and ns): the rate divisor must still be the range
+var dursSub = []string{"1500us", "500us", "2500000ns", "1ns", "999999ns", "1001us", "15000001us"}
+
 func genDur(r *h.Rng, g mgen) string {
 	if g.ms && r.Chance(20) {
 		return h.Pick(r, dursMs)
+	}
+	if !g.simple && r.Chance(5) {
+		return h.Pick(r, dursSub)
 	}
 	return h.Pick(r, durs)
 }
